@@ -956,8 +956,14 @@ class CPreProcessor:
 
     OP_MAP = {
         "*": (11, False, operator.mul),
-        "/": (11, False, operator.floordiv),
-        "%": (11, False, operator.mod),
+        # C division truncates towards zero, the remainder has the sign
+        # of the dividend:
+        "/": (
+            11,
+            False,
+            lambda x, y: abs(x) // abs(y) * (1 if (x < 0) == (y < 0) else -1),
+        ),
+        "%": (11, False, lambda x, y: abs(x) % abs(y) * (-1 if x < 0 else 1)),
         "+": (10, False, operator.add),
         "-": (10, False, operator.sub),
         "<<": (9, False, operator.lshift),
